@@ -289,6 +289,71 @@ def _job(ctx, payload):
         _bloch_rules(ctx)
     else:
         _tables(ctx)
+        _yee_offset_rules(ctx)
+
+
+def _yee_offset_rules(ctx):
+    """the sample positions the sources time their components by: relabelling the axes relabels the tables"""
+    ix = ctx.index
+    it = ctx.fresh_interp()
+    g = ix.function("fdtdx.core.grid.calculate_spatial_offsets_yee")
+    ctx.unit(g.where())
+    oE, oH = it.call(it.closure_of(g), [], {})
+    bad = []
+    for nm, T in (("E", oE), ("H", oH)):
+        if not (isinstance(T, NdArr) and T.shape[0] == 3 and T.shape[-1] == 3 and len(T.data) == 9):
+            raise AnalysisError(f"calculate_spatial_offsets_yee returns {getattr(T, 'shape', T)}")
+        for c in range(3):
+            for a in range(3):
+                if not to_rat(T.data[S[c] * 3 + S[a]]).equals(to_rat(T.data[c * 3 + a])):
+                    bad.append((nm, c, a))
+    ctx.ob("R8.6", "fdtdx.core.grid.calculate_spatial_offsets_yee", not bad, "offset of component sigma(c) along axis sigma(a) equals the offset of component c along a, for E and H", bad[:3], "relabelled table")
+    f = ix.function("fdtdx.core.grid.calculate_time_offset_yee")
+    ctx.unit(f.where())
+    shapes = {0: (1, 2, 3)}
+    for n in (0, 1):
+        shapes[S[n]] = tuple(shapes[n][[b for b in range(3) if S[b] == a][0]] for a in range(3))
+    outs = {}
+    for axis in range(3):
+        N = shapes[axis]
+        it = ctx.fresh_interp()
+        k = NdArr((3,), [Rat.atom(f"k{a}") for a in range(3)])
+        ie = NdArr((1,) + N, [Rat.atom(("ie",) + p) for p in itertools.product(*[range(m) for m in N])])
+        edges = tuple(NdArr((N[a] + 1,), [Rat.atom((f"e{a}", i)) for i in range(N[a] + 1)]) for a in range(3))
+        kw = dict(coordinate_edges=edges, center_physical=NdArr((3,), [Rat.atom(f"ctr{a}") for a in range(3)]), effective_index=Rat.atom("neff"))
+        try:
+            outs[axis] = it.call(it.closure_of(f), [NdArr((2,), [Rat.atom("c0"), Rat.atom("c1")]), k, ie, Rat.atom("mu"), Rat.atom("res"), Rat.atom("dt")], kw)
+        except Raised as r:
+            raise AnalysisError(f"calculate_time_offset_yee raises: {r}")
+
+    def relabel(r):
+        m = {}
+        for a in r.atoms():
+            if isinstance(a, str) and len(a) >= 2 and a[:-1] in ("k", "ctr") and a[-1] in "012":
+                m[a] = Rat.atom(a[:-1] + str(S[int(a[-1])]))
+            elif isinstance(a, tuple) and len(a) == 2 and isinstance(a[0], str) and a[0][:1] == "e" and a[0][1:] in ("0", "1", "2"):
+                m[a] = Rat.atom((f"e{S[int(a[0][1:])]}", a[1]))
+        return r.subs(m) if m else r
+
+    bad = None
+    n_cmp = 0
+    for axis in range(3):
+        N, N2 = shapes[axis], shapes[S[axis]]
+        for which in (0, 1):
+            A, B = outs[axis][which], outs[S[axis]][which]
+            if not (isinstance(A, NdArr) and A.shape == (3,) + N and isinstance(B, NdArr) and B.shape == (3,) + N2):
+                raise AnalysisError(f"calculate_time_offset_yee returns shapes {getattr(A, 'shape', A)}, {getattr(B, 'shape', B)}")
+            for c in range(3):
+                for p in itertools.product(*[range(m) for m in N]):
+                    q = [0, 0, 0]
+                    for a in range(3):
+                        q[S[a]] = p[a]
+                    want = relabel(to_rat(A.data[((c * N[0] + p[0]) * N[1] + p[1]) * N[2] + p[2]]))
+                    got = to_rat(B.data[((S[c] * N2[0] + q[0]) * N2[1] + q[1]) * N2[2] + q[2]])
+                    n_cmp += 1
+                    if not got.equals(want):
+                        bad = bad or (f"{'EH'[which]}{c} at {p}, propagation axis {axis}", got.fmt()[:240], want.fmt()[:240])
+    ctx.ob("R8.6", "fdtdx.core.grid.calculate_time_offset_yee", bad is None and n_cmp >= 100, "the delay of component sigma(c) at the relabelled cell on a plane normal to sigma(n) is the relabelled delay of component c on the plane normal to n (E and H, three plane orientations, stretched edges)" + (f" — fails for {bad[0]}" if bad else ""), bad[1] if bad else f"{n_cmp} entries", bad[2] if bad else "relabelled siblings")
 
 
 def run(ctx):
